@@ -675,6 +675,83 @@ func runC16(c *Check) {
 		c.MinInstances("C16-R7", 4)
 	}
 
+	// ---- R8: a successful answer is passed on. After the RPC returned without error the client
+	// method adds no refusal of its own (other than turning an empty listing into the interface's
+	// "nothing at this height"): content the DA layer holds — an empty blob, an odd count — is the
+	// DA layer's business; a client-side check makes the proxied DA fail where the direct one
+	// answers, and a scan retries that height forever.
+	c.Doc("C16-R8", "ER: in every client method, every return reachable from the success edge of the RPC reports success, or the interface's not-found sentinel for an empty listing.")
+	{
+		n8 := 0
+		for _, m := range []string{"Get", "GetIDs", "GetProofs", "Commit", "Validate", "Submit", "SubmitWithOptions"} {
+			fn := api(m)
+			if fn == nil {
+				continue
+			}
+			g := BuildECFG(dp, fn, ExpandOpts{MaxDepth: 1})
+			mm := m
+			isRPC := func(t *Term) bool {
+				if t.Op != "dyncall" && t.Op != "call" {
+					return false
+				}
+				return strings.Contains(t.String(), ".Internal."+mm+",") || strings.Contains(t.String(), ".Internal."+mm+")") || strings.Contains(t.Name, "Internal."+mm)
+			}
+			var okEdges []*Node
+			for _, e := range g.Select(ErrNilEdge(isRPC)) {
+				t, _ := CondTerm(e)
+				isErr := false
+				t.Walk(func(x *Term) bool {
+					if (x.Op == "extract" || x.Op == "dyncall" || x.Op == "call") && x.V != nil && x.V.Type().String() == "error" {
+						isErr = true
+					}
+					return true
+				})
+				if isErr {
+					okEdges = append(okEdges, e)
+				}
+			}
+			if len(okEdges) == 0 {
+				continue
+			}
+			c.NoteGraph(g)
+			n8++
+			var bad []string
+			for _, x := range g.Exits {
+				if x.Ctx.Depth != 0 {
+					continue
+				}
+				xx := x
+				if g.PathAvoiding(okEdges, func(y *Node) bool { return y == xx }, nil) == nil {
+					continue
+				}
+				ret := x.In.(*ssa.Return)
+				et := TermOf(spilledResult(ret, len(ret.Results)-1), x.Ctx)
+				for _, leaf := range flattenPhi(et) {
+					l := leaf.unconv()
+					switch {
+					case l.Op == "const" && l.Name == "nil":
+					case l.Op == "global" && l.Name == "da.ErrBlobNotFound":
+					case strings.Contains(l.String(), ".Internal."+mm):
+						// the RPC's own error value (nil on this edge)
+					default:
+						bad = append(bad, trunc(l.String(), 60)+" @"+dp.InstrPos(x.In))
+					}
+				}
+			}
+			inst := "client." + m + " ⟂ successful-answer-is-passed-on"
+			if len(bad) == 0 {
+				c.OK("C16-R8", inst, fnName(fn), dp.Pos(fn.Pos()), "after a successful RPC the method reports success (or not-found for an empty listing)", true)
+			} else {
+				sort.Strings(bad)
+				c.Bad("C16-R8", inst, fnName(fn), dp.Pos(fn.Pos()), "after the RPC succeeded the client can still fail with "+strings.Join(bad, "; ")+": content that the same DA serves in-process (e.g. an empty blob) makes the proxied call fail, and a scan that retries the height is stuck on it", nil)
+			}
+		}
+		if n8 < 4 {
+			c.Unk("C16-R8", "client-methods", "", "", fmt.Sprintf("anchor lost: only %d client methods with a checked RPC result", n8))
+		}
+		c.MinInstances("C16-R8", 4)
+	}
+
 	// ---- R6: transport limits admit everything the client may send. Blobs travel base64-encoded
 	// inside JSON (4/3 of their raw size plus the envelope); a request-size cap on the server (or a
 	// response cap on the client) below 4/3 of the client's batch limit rejects batches the same DA
